@@ -50,7 +50,7 @@ CHECKS = {
         '/repo (fix: 929e410). Reading of the two-index predicates fixed in DESIGN §4 C14.',
         '§4 C14'),
     'C04': (
-        'Coq proof over a Gallina model of TermId + per-run vm_compute correspondence with src/hpotk/model/_term_id.py',
+        'Coq proof over a Gallina model of TermId + per-run translation of the TermId methods from src/hpotk/model/_term_id.py into Gallina proved equal to the model + per-run vm_compute correspondence with the implementation',
         'Machine-checked theorems (all strings, all term ids, no bound): parse succeeds iff a delimiter is present and splits at the '
         'first colon else first underscore; value re-parses to an equal id; == is equality of (prefix,id); equal ids hash equally '
         'across both classes; < is a strict total lexicographic order; sort+dedupe is canonical and the bisect loop finds exactly '
@@ -92,7 +92,7 @@ CHECKS = {
         'Trusted: Coq kernel + vm_compute; dict modelled as association list with in-place overwrite; object identity rendered as list position.',
         '§4 C06'),
     'C07': (
-        'Coq proof (state machine over the I/O boundaries of a load with any number of loaders, faults, kills and clears; inductive invariant; cache hit; recovery; latest tag) + per-run vm_compute correspondence against the real store driven boundary by boundary',
+        'Coq proof (state machine over the eight I/O boundaries of a load with any number of loaders, faults, kills and clears; inductive invariant; cache hit; recovery; latest tag; file names as strings) + per-run translation of the store\'s file-name expressions into Gallina proved equal to the model + per-run vm_compute correspondence against the real store driven boundary by boundary',
         'Machine-checked theorems about the store model: in EVERY reachable world - any number of concurrent loaders, any interleaving of their I/O boundaries '
         '(isfile, fetch, create temp, read, write, close, os.replace, load), any fault (fetch raises, read raises, write() fails after k bytes, the flush at close() fails after k bytes), a kill at any '
         'boundary, any clears in between - every cache location is absent or holds exactly the bytes the remote serves (never a prefix); a fetch happens only '
